@@ -128,6 +128,10 @@ def enum_year_offset(tier, shard, nshards):
             dmax = rd.month_len(1900 + y, m)
             d = [1, dmax, (y * 3 + j) % dmax + 1][(y + j) % 3]
             yield [y, m, d]
+        # the days that exist only because of the offset: 29 February of 1900+y when that is a leap year although y is not, and the other way round (an error either way must match DATE(1900+y,..))
+        if rd.month_len(1900 + y, 2) == 29:
+            yield [y, 2, 29]
+            yield [y, 3, 1]
 
 
 def check_year_offset(case):
@@ -320,7 +324,7 @@ LAWS = [
     Law('hms', check_hour, enumerate=enum_hms, exhaustive=True, shards=(12, 24), weight=lambda h: 3600,
         rule='all 86400 (h,m,s): HOUR/MINUTE/SECOND(TIME(h,m,s)) through parse()'),
     Law('year_offset', check_year_offset, enumerate=enum_year_offset, shards=(4, 8),
-        rule='every year 0..1899 with 2 (quick) / 12 (thorough) derived month/day pairs: DATE(y,m,d) has components 1900+y, m, d and equals DATE(1900+y,m,d)'),
+        rule='every year 0..1899 with 2 (quick) / 12 (thorough) derived month/day pairs, plus 29 February and 1 March of every y whose 1900+y is a leap year: DATE(y,m,d) has components 1900+y, m, d and equals DATE(1900+y,m,d)'),
     Law('datedif', check_datedif, strategy=date_pair(), classes=datedif_classes, quick=3000, thorough=200000,
         required=('start>end', 'equal', 'month-end-ish', 'leap-day', 'style:lit', 'style:var', 'style:iso'),
         nontrivial=lambda c: c['a'] != c['b'],
